@@ -183,8 +183,10 @@ class ListeningConnection(Connection):
             incoming=True
         )
         connection._reader, connection._writer = reader, writer
-        await self.network.on_peer_accepted(connection)
+        # The socket is open: report CONNECTED before handling the peer
+        # initialization, which can already close the connection again
         await connection.set_state(ConnectionState.CONNECTED)
+        await self.network.on_peer_accepted(connection)
 
 
 class DataConnection(Connection, abc.ABC):
